@@ -136,7 +136,8 @@ fn mk_span(tgt: &str, pk: &str, parent: Option<&Span>) -> Span {
 fn hid(s: &Span) -> u64 {
     match s.id().map(|i| i.into_u64()) {
         Some(0xDEAD) | None => 0,
-        Some(i) => i,
+        // collectors may hand out small overlapping ids: the log speaks in composite ids (collector * 1000 + n)
+        Some(i) => s.with_collector(|(_, d)| d.downcast_ref::<RecCollector>().map(|c| c.composite(i)).unwrap_or(i)).unwrap_or(i),
     }
 }
 
@@ -145,11 +146,14 @@ fn child() {
     let beh = runner::child_input();
     let log = new_log();
     let mut disp: HashMap<u64, Dispatch> = HashMap::new();
+    let mut hint_cells = vec![];
     for (i, v) in beh["acc"].as_array().unwrap().iter().enumerate() {
         let d: u64 = i as u64 + 1;
         let tg = if v.as_bool().unwrap() { vec!["a".to_string(), "x".to_string()] } else { vec!["a".to_string()] };
         let (mut c, _) = RecCollector::new(d, FilterRec { thr: 5, tgts: tg, kind: "static".into(), hint: None }, log.clone());
         c.alias_on_clone = beh["alias"].as_array().and_then(|a| a.get(i)).and_then(|x| x.as_bool()).unwrap_or(false);
+        c.raw_ids = beh["raw_ids"].as_bool().unwrap_or(false);
+        hint_cells.push(c.hint_cell.clone());
         // the collector is installed plainly, boxed or arc'd: the protocol seen by the collector must be the same
         let wrap = beh["wrap"].as_array().and_then(|a| a.get(i)).and_then(|x| x.as_str()).unwrap_or("plain");
         disp.insert(d, match wrap {
@@ -198,6 +202,38 @@ fn child() {
                 sh.handles.lock().unwrap().insert(h2, Box::new(s));
                 json!(id)
             }),
+            // every collector starts publishing `lvl` as its max-level hint and the interest cache is rebuilt: the process-wide
+            // maximum level changes in the middle of the history (a no-op for the protocol)
+            "maxlevel" => {
+                let lvl = step["lvl"].as_u64().unwrap();
+                for c in &hint_cells {
+                    c.store(lvl, std::sync::atomic::Ordering::SeqCst);
+                }
+                tracing_core::callsite::rebuild_interest_cache();
+                drain(&log);
+                continue; // not an action of the specification: nothing is logged
+            }
+            // a.clone_from(&b): logged as the two actions it must be equal to -- clone(b -> slot hf), drop(a)
+            "clone_from" => {
+                let hf = g("hf");
+                let r = pool.run(t, move |_, sh| {
+                    let mut a = *sh.handles.lock().unwrap().remove(&h).unwrap();
+                    let pb = span_ptr(sh, h2);
+                    a.clone_from(unsafe { &*pb });
+                    let id = hid(&a);
+                    sh.handles.lock().unwrap().insert(hf, Box::new(a));
+                    json!(id)
+                });
+                let calls: Vec<Value> = drain(&log)
+                    .into_iter()
+                    .filter(|c| c.get("id").is_some())
+                    .map(|c| json!({"call": c["call"], "col": c["col"], "id": c["id"], "th": c["th"], "ret": c.get("ret").cloned().unwrap_or(json!(0))}))
+                    .collect();
+                let (cl, rest): (Vec<Value>, Vec<Value>) = calls.into_iter().partition(|c| c["call"] == "clone_span");
+                runner::child_emit(json!({"ev": "op", "op": "clone", "t": t, "h": h2, "h2": hf, "calls": cl, "hid": if r.is_object() { json!(0) } else { r.clone() }, "via": "clone_from"}));
+                runner::child_emit(json!({"ev": "op", "op": "drop", "t": t, "h": h, "calls": rest, "hid": 0, "via": "clone_from"}));
+                continue;
+            }
             "drop" => {
                 // `unwind`: the handle is owned by a frame that panics, i.e. it is dropped while the thread is unwinding
                 let unwind = step["unwind"].as_bool().unwrap_or(false);
